@@ -53,7 +53,8 @@ func TestMain(m *testing.M) {
 			"Oracle in exact arithmetic: vertex i == input point i bit for bit and every index in range; every triangle non-degenerate and all of one orientation; no two triangle interiors intersect (pairwise separating-edge test); no input point strictly inside a circumcircle. " +
 			"Completeness of the hull is not demanded (classes empty-or-partial-output/*). Because the four conditions are met by returning nothing (a flipped in-circle sign does exactly that), one non-vacuity condition is added, signature missing-interior-triangle: " +
 			"a triangle of the input's Delaunay triangulation (reference: all index triples with an empty circumcircle) whose closed circumdisk lies inside the convex hull of the input must be returned - its circumcircle is empty whatever enclosing vertices an implementation adds, since those are outside the hull. " +
-			"Non-trivial = at least one triangle returned and n >= 5; distinct by case JSON.",
+			"Non-trivial = at least one triangle returned and n >= 5; distinct by case JSON. " +
+			"Sub-check concurrent-callers: 2-6 inputs triangulated at the same time, each judged by the full oracle; non-trivial when >= 2 of them have >= 3 points in general position.",
 		Assumptions: []string{
 			fmt.Sprintf("general position is read with a margin: every triple has |cross| >= %g*l^2 and every quadruple |in-circle det| >= %g*L^4 (l, L = L-infinity diameter of the triple / quadruple); sets violating it are never generated and are skipped when met in a replay file", muCol, muCirc),
 			"the margin cannot be extended to the implementation's auxiliary enclosing vertices (their position is not part of the contract); a float64 in-circle evaluation involving them is unreliable only within ~1e-14 relative of degeneracy, estimated < 1e-2 such events per thorough run, none observed",
